@@ -12,19 +12,24 @@ Variable over1 over2 : Z -> V -> V.
 Variable has_prot : Z -> bool.
 Variable mf : Z -> V.
 Variable sf : Z -> V.
+Variable pre : bool.
 Variable reqs : Z -> req.
 
 Notation full := (full V base over1 over2 has_prot).
 Notation step := (step V base over1 over2 has_prot mf sf).
 Notation run := (run V base over1 over2 has_prot mf sf).
-Notation init := (init V base).
+Notation init := (init V base pre).
 Notation alone := (alone V base over1 over2 has_prot mf sf).
 Notation R := (fun sched s => run Repaired reqs sched (init Repaired reqs) = Some s).
 
-Local Ltac by_reach L := intros sched s; intros; eapply (L V base over1 over2 has_prot mf sf reqs); eauto; now exists sched.
+Local Ltac by_reach L := intros sched s; intros; eapply (L V base over1 over2 has_prot mf sf pre reqs); eauto; now exists sched.
 
 Lemma r_built_once : forall sched s, R sched s -> b_gen s <= 1.
 Proof. by_reach built_once. Qed.
+
+Lemma r_prebuilt_never_rebuilt : forall sched s, R sched s -> pre = true ->
+  b_gen s = 1 /\ b_wsdl s = Some 0.
+Proof. by_reach prebuilt_never_rebuilt. Qed.
 
 Lemma r_served_whole : forall sched s, R sched s ->
   (forall t, reqs t = RWsdl -> tpc (thr s t) = Done -> out (thr s t) = Some (PWsdl (Some 0))) /\
@@ -39,7 +44,7 @@ Lemma r_schedule_independent : forall sched1 sched2 s1 s2 t, R sched1 s1 -> R sc
   tpc (thr s1 t) = Done -> tpc (thr s2 t) = Done -> out (thr s1 t) = out (thr s2 t).
 Proof.
   intros sched1 sched2 s1 s2 t H1 H2.
-  apply (schedule_independent V base over1 over2 has_prot mf sf reqs); [now exists sched1|now exists sched2].
+  apply (schedule_independent V base over1 over2 has_prot mf sf pre reqs); [now exists sched1|now exists sched2].
 Qed.
 
 Lemma r_memo_transparent : forall sched s, R sched s ->
